@@ -15,20 +15,43 @@ from . import common, lib_db
 from .common import parallel_map
 from .lib_dbref import Ref, dangling_tags, duplicate_keys, frame_breaks, fallbacks
 
-RULE = ("cases = histories of 5-40 commands (declare with/without directory, tag, stack, table=none, force, external "
-        "files; redeclaration with another directory; undeclare with/without version, tag-only, version-and-tag, with "
-        "the product set up in the environment; remove; direct assignTag / unassignTag; ~8% dry runs) over 3 "
-        "products x 3 versions x 2 flavors (Linux native, generic fallback, sharing version files) x 2 stacks x 3 "
-        "global tags, some product directories missing; every command is a fresh forked child; a history is "
-        "non-trivial when at least 3 of its commands change the database and at least one is refused or finds "
-        "nothing; distinct = distinct history digests; thorough tier: also every history of length 2 over a "
-        "36-command alphabet")
+RULE = ("cases = histories of 5-40 commands (declare with/without directory, tag, stack, force, external files; table "
+        "file: the directory's, none, a file kept elsewhere (-m: in ups_db_tables/ of either stack, outside the stacks, the "
+        "interned table by its path), a stream (-M, two contents); redeclaration with another directory; undeclare "
+        "with/without version, tag-only, version-and-tag, with the product set up in the environment; remove; direct "
+        "assignTag / unassignTag; ~8% dry runs; ~1.5% an installation directory deleted by hand) over 3 products x 3 "
+        "versions x 2 flavors (Linux native, generic fallback, sharing version files) x 2 stacks named stack and stack2 "
+        "(one a character prefix of the other, DESIGN 4.1) x 3 global tags, some product directories missing; every "
+        "command is a fresh forked child; a history is non-trivial when at least 3 of its commands change the database "
+        "and at least one is refused or finds nothing; distinct = distinct history digests; thorough tier: also every "
+        "history of length 2 over a 36-command alphabet")
 TRUSTED = ["fork-per-command runner, audit-log mtime normaliser and the Database-only reader of harness/lib_db.py",
            "version names are single-component (the model orders listings by string order; C10 owns version order)",
-           "all stacks writable, global tags only (user tags not modelled), tablefile None or \"none\" (interned tables not "
-           "generated)"]
+           "all stacks writable, global tags only (user tags not modelled)"]
 ASSUMPTIONS = ["a tag (tag, product, flavor) is one designation on the whole EUPS_PATH (DESIGN 6 C06, reading)",
-               "table files are compared by identity of their path class (default `ups/<name>.table` or `none`)"]
+               "two table files are the same table when their bytes are (the contents of the universe differ in length, so "
+               "that filecmp's shallow comparison cannot tie); table files declare no options and no dependencies"]
+
+# the functions the model mirrors (harness/fingerprint.py): a changed fingerprint makes the quick tier run with the thorough case budget
+MIRRORS = [
+    ('python/eups/Eups.py', 'Eups.declare'),
+    ('python/eups/Eups.py', 'Eups.undeclare'),
+    ('python/eups/Eups.py', 'Eups.assignTag'),
+    ('python/eups/Eups.py', 'Eups.unassignTag'),
+    ('python/eups/Eups.py', 'Eups.remove'),
+    ('python/eups/Eups.py', 'Eups._remove'),
+    ('python/eups/Eups.py', 'Eups.findProducts'),
+    ('python/eups/Eups.py', 'Eups.findProduct'),
+    ('python/eups/Eups.py', 'Eups.__init__'),
+    ('python/eups/Eups.py', 'Eups._setProductStack_fromCache'),
+    ('python/eups/Eups.py', 'Eups.findTaggedProduct'),
+    ('python/eups/db/Database.py', '*'),
+    ('python/eups/db/VersionFile.py', '*'),
+    ('python/eups/db/ChainFile.py', '*'),
+    ('python/eups/utils.py', 'isSubpath'),
+    ('python/eups/Product.py', 'Product.resolvePaths'),
+    ('python/eups/Eups.py', 'Eups.isSetup'),
+]
 
 WORKERS = int(os.environ.get("VERIF_WORKERS", "12"))
 EMPTY = {"decls": [], "tags": []}
@@ -70,10 +93,54 @@ def d16_class(cmd, rec, prev, real, dirs):
                                    for d in prev["decls"]) for si, fl in enumerate(loaded))
     if not hidden:
         return False
-    r = Ref(dirs)
+    r = Ref(dirs, lib_db.TFILES)
     r.load(prev)
     out = r.apply(cmd, loaded=loaded)
     return out == rec["out"] and common.jdump(r.listing()) == common.jdump(real)
+
+
+def _ref_with(switch, cmd, prev, dirs, ref_before):
+    r = Ref(dirs, lib_db.TFILES)
+    r.load(prev)
+    r.dirs = set(ref_before["dirs"])
+    r.extras = {k: dict(v) for k, v in ref_before["extras"].items()}
+    setattr(r, switch, True)
+    return r.apply(cmd), r.listing()
+
+
+def d38_class(cmd, rec, prev, real, dirs, ref_before):
+    """class predicate of D38: `declare` takes ANY table path below the database directory of the stack for the
+    declaration's own interned table (`isSubpath(tablefile, dbpath)`): the reference, told to do the same, implies
+    exactly what the implementation did (and the plain reference does not)"""
+    if cmd["op"] != "declare":
+        return False
+    out, listing = _ref_with("any_path_below_ups_db_is_own", cmd, prev, dirs, ref_before)
+    return out == rec["out"] and common.jdump(listing) == common.jdump(real)
+
+
+def d39_class(cmd, rec, prev, real, dirs, ref_before):
+    """class predicate of D39: a redeclaration with the table given as a stream (no force): the implementation compares
+    a streamed table only as an external file, and not at all when the version has no extra directory: the reference,
+    told not to compare the bytes of a streamed table with the declared table, implies exactly what the
+    implementation did (and the plain reference does not)"""
+    t = cmd.get("table")
+    if cmd["op"] != "declare" or not t or t[0] != "stream":
+        return False
+    out, listing = _ref_with("streamed_table_not_compared", cmd, prev, dirs, ref_before)
+    return out == rec["out"] and common.jdump(listing) == common.jdump(real)
+
+
+def d44_class(cmd, rec, prev, real, dirs, ref_before):
+    """class predicate of D44: undeclare / remove while the environment says a version of the product is set up for a
+    flavor that an instance of the command's flavor does not look at (Linux, for a generic process): the implementation
+    refuses when its in-memory stack happens to hold that flavor (a stack rebuilt from the database holds every flavor,
+    one read from an accepted cache only the needed ones): the reference, told that the instance knows the set-up
+    flavor, implies exactly what the implementation did (and the plain reference does not)"""
+    su = cmd.get("setup")
+    if cmd["op"] not in ("undeclare", "remove") or not su or su[1] in fallbacks(cmd.get("flavor", "Linux")):
+        return False
+    out, listing = _ref_with("foreign_setup_flavor_known", cmd, prev, dirs, ref_before)
+    return out == rec["out"] and common.jdump(listing) == common.jdump(real)
 
 
 def d32_class(cmd, rec, want, real):
@@ -121,7 +188,7 @@ def oracle_i(ctx, i, sub, rec, impl_obs, model_obs):
 def check_case(ctx, case, steps, msteps):
     """Both oracles on one history.  steps = implementation records, msteps = model records."""
     dirs = [d for d in lib_db.all_dirs() if d not in case.get("missing", [])]
-    ref = Ref(dirs)
+    ref = Ref(dirs, lib_db.TFILES)
     prev = EMPTY
     nchange = nerr = 0
     inp = {"missing": case.get("missing", []), "cmds": case["cmds"]}
@@ -164,6 +231,7 @@ def check_case(ctx, case, steps, msteps):
         if cmd.get("noaction") and real != prev:
             ctx.fail("dry_run_is_noop", sub, impl_obs, model_obs, note="a dry run changed the database")
         # ---- oracle (ii): what the history implies ---------------------------------------------------
+        ref_before = {"dirs": set(ref.dirs), "extras": {k: dict(v) for k, v in ref.extras.items()}}
         want_out = ref.apply(cmd)
         want = ref.listing()
         if common.jdump(want) != common.jdump(real) or want_out != rec["out"]:
@@ -172,11 +240,19 @@ def check_case(ctx, case, steps, msteps):
                 cls = "D32"
             elif d16_class(cmd, rec, prev, real, dirs):
                 cls = "D16"
+            elif d39_class(cmd, rec, prev, real, dirs, ref_before):
+                cls = "D39"
+            elif d38_class(cmd, rec, prev, real, dirs, ref_before):
+                cls = "D38"
+            elif d44_class(cmd, rec, prev, real, dirs, ref_before):
+                cls = "D44"
             dd = sorted(set(map(common.jdump, want["decls"])) ^ set(map(common.jdump, real["decls"])))
             td = sorted(set(map(common.jdump, want["tags"])) ^ set(map(common.jdump, real["tags"])))
             ctx.fail("history_implies/" + kind_of(cmd), sub, impl_obs, model_obs, finding=cls,
                      note="outcome %s (implied %s); declarations differing %s; tags differing %s" % (rec["out"], want_out, dd[:4], td[:4]))
-            ref.load(real)
+            ref.load(real)                       # go on from the state the implementation is in: records and extra files
+            if "extras" in rec:
+                ref.load_extras(rec["extras"])
         elif rec["out"] == "ok" and not cmd.get("noaction") and cmd["op"] in ("declare", "assignTag") and \
                 (cmd.get("tag") or cmd["op"] == "assignTag"):
             ctx.hist("tag-moved")
